@@ -232,7 +232,9 @@ def resolve(step, geo, env, si):
             nd = cl.node[step['node']]; pn = G.pt_value(P(nd))
             return dict(op='split', col=cl.name, node=nd.name), lambda m: dict(op='split', col=r(m), node=pn(m))
         if op == 'rename_column':
-            return dict(op=op, col=cl.name, name=step['name']), lambda m: dict(op=op, col=r(m), name=step['name'])
+            # '<same>': rename a column to the name it already has (a no-op that must stay a no-op)
+            nm = cl.name if step['name'] == '<same>' else step['name']
+            return dict(op=op, col=cl.name, name=nm), lambda m: dict(op=op, col=r(m), name=nm)
         return dict(op=op, col=cl.name), lambda m: dict(op=op, col=r(m))
     if op == 'readd_column':
         # delete a column and add an identical new one over the same nodes under a new name
@@ -479,7 +481,7 @@ def alphabet(level, ncols):
              dict(op='translate')]
     if level == 'tiny': return small[:5]
     if level == 'small': return small
-    mid14 = small + [dict(op='refine', sel='all'), dict(op='rename_column', col=0, name='xyz'), dict(op='readd_connection', which='last'),
+    mid14 = small + [dict(op='refine', sel='all'), dict(op='rename_column', col=0, name='xyz'), dict(op='rename_column', col=1, name='<same>'), dict(op='readd_connection', which='last'),
                      dict(op='rotate', angle=30.0), dict(op='copy_layers_from', n=3), dict(op='snap_nearest', sel=[0])]
     if level == 'mid14': return mid14
     extra = [dict(op='split', col='last', node=2), dict(op='rename_layer', layer='last', name='zz'),
